@@ -128,7 +128,12 @@ def finish(rep, seed=0):
             ],
             "exhaustive": False,
         },
-        "assumptions": rep.assumptions,
+        "assumptions": rep.assumptions or [
+            "rustc's name and type resolution (HIR + typeck results of the nightly toolchain) is correct for /repo's sources",
+            "the analysed configuration is the default feature set of the six workspace crates, non-test code (the `timed` feature does not compile)",
+            "the reviewed instance tables in /verif/rules (binder exemptions, bounded loops, newline modes ..) describe the code they were reviewed against; a rule whose anchor is gone fails closed",
+            "no emitted Lua and no sylt code is executed: clauses about run-time values are decided only as far as they follow from the shape of the compiler, the preamble and std/*.sy",
+        ],
         "wall_s": round(time.time() - rep.t0, 2),
         "violations": len(viol),
     }
